@@ -7,10 +7,13 @@ No deterministic theorem can say "a forger fails".  What is proved is
   (`sig_component_tamper`), hence of every single-bit / single-byte flip of the 80-byte encoding
   (`sig_bitflip`, `sig_byteflip`, `sig_half_tamper`; a decoding error counts as rejection);
 * for everything else: acceptance implies an explicit EVENT with explicit witnesses —
-  `HashCollision`, `GeneratorRelation` (a `BCollision` over full-length vectors),
-  `SecondSignature`, `PkRelation` (`sig_bytes_tamper`, `stmt_edit_collision`, `other_pk`);
+  `HashCollision`, `GeneratorRelation` (a `BCollision` over full-length vectors, i.e. a
+  non-trivial linear relation among the generators, `generator_relation_linear`),
+  `SecondSignature`, an explicit relation `(sk' − sk) • A = (d' − d) • Q1`
+  (`sig_bytes_tamper`, `stmt_edit_collision`, `other_pk`);
 * domain separation between the two ciphersuites and the plain/blind interfaces
-  (`apiIds_pairwise_distinct`, `dst_separation`, `cross_suite_iff`, `cross_interface`).
+  (`apiIds_pairwise_distinct`, `xof_distinct`, `dst_separation`, `dst_disjoint`), and what
+  acceptance in two hash domains means (`cross_suite`, `cross_interface`: `CrossRelation`).
 
 All theorems are about the L1 model with an arbitrary field of scalars, arbitrary modules, an
 arbitrary lawful environment and arbitrary hash functions; `cs` is arbitrary (both suites)
@@ -698,5 +701,160 @@ theorem dst_disjoint (cs cs' : Suite G1) (h : IsSha cs) (h' : IsShake cs') :
   · exact fun hy => d2 x (by simp [hx]) x hy rfl
   · exact fun hy => d3 x (by simp [hx]) x hy rfl
   · exact fun hy => d3 x (by simp [hx]) x hy rfl
+
+
+/-! ### Cross-suite and cross-interface acceptance -/
+
+/-- **What `verifyBlindSign` decides** (key `sk • BP2`): `B` is computed over the generators
+derived from `api_id_blind` followed by the blind generators derived from
+`"BLIND_" ++ api_id_blind`, with messages `msgs ++ [blind] ++ committed`, all hashed with
+`api_id_blind` DSTs. -/
+theorem verifyBlindSign_iff (hl : Lawful env pair) (cs : Suite G1) (sk : S) (σ : Signature S G1)
+    (header : Option Bytes) (msgs committed : Option (List Bytes)) (blind : Option S) :
+    verifyBlindSign env cs σ (sk • env.bp2) header msgs committed blind = .ok () ↔
+      ∃ ms cms Q1 Hs Js d,
+        messagesToScalar env cs (msgs.getD []) cs.apiIdBlind = .ok ms ∧
+        messagesToScalar env cs (committed.getD []) cs.apiIdBlind = .ok cms ∧
+        createGenerators env cs ((msgs.getD []).length + 1) (some cs.apiIdBlind)
+          = .ok (Q1 :: Hs) ∧
+        createGenerators env cs ((committed.getD []).length + 1)
+          (some (Bytes.ofAscii "BLIND_" ++ cs.apiIdBlind)) = .ok Js ∧
+        calculateDomain env cs (sk • env.bp2) Q1 (Hs ++ Js) header (some cs.apiIdBlind) = .ok d ∧
+        (sk + σ.e) • σ.A = calcB cs.p1 Q1 d (Hs ++ Js) (ms ++ blind.getD 0 :: cms) := by
+  unfold verifyBlindSign prepareParameters
+  dsimp only [Option.getD_some]
+  cases hm : messagesToScalar env cs (msgs.getD []) cs.apiIdBlind with
+  | err => simp
+  | panic => simp
+  | ok ms =>
+    dsimp only
+    cases hcm : messagesToScalar env cs (committed.getD []) cs.apiIdBlind with
+    | err => simp
+    | panic => simp
+    | ok cms =>
+      dsimp only
+      cases hg : Generators.create env cs ((msgs.getD []).length + 1) (some cs.apiIdBlind) with
+      | err =>
+        simp only [false_iff, not_exists, reduceCtorEq]
+        rintro _ _ Q1 Hs _ _ ⟨_, _, hc, _⟩
+        rw [create_of hc] at hg; cases hg
+      | panic =>
+        simp only [false_iff, not_exists, reduceCtorEq]
+        rintro _ _ Q1 Hs _ _ ⟨_, _, hc, _⟩
+        rw [create_of hc] at hg; cases hg
+      | ok gens =>
+        dsimp only
+        cases hbg : Generators.create env cs ((committed.getD []).length + 1)
+            (some (Bytes.ofAscii "BLIND_" ++ cs.apiIdBlind)) with
+        | err =>
+          simp only [false_iff, not_exists, reduceCtorEq]
+          rintro _ _ _ _ Js _ ⟨_, _, _, hc, _⟩
+          rw [create_of hc] at hbg; cases hbg
+        | panic =>
+          simp only [false_iff, not_exists, reduceCtorEq]
+          rintro _ _ _ _ Js _ ⟨_, _, _, hc, _⟩
+          rw [create_of hc] at hbg; cases hbg
+        | ok bgens =>
+          dsimp only
+          obtain ⟨gb, gc, gl⟩ := create_ok hg
+          obtain ⟨_, bc, bl⟩ := create_ok hbg
+          have l1 := mapRes_length hm
+          have l2 := mapRes_length hcm
+          rw [coreVerify_ok_iff hl]
+          dsimp only
+          constructor
+          · rintro ⟨Q1, T, d, hv, _, hd, he⟩
+            cases hgv : gens.values with
+            | nil => rw [hgv] at gl; simp at gl
+            | cons Q1' Hs =>
+              rw [hgv, List.cons_append] at hv
+              obtain ⟨rfl, rfl⟩ := List.cons.inj hv
+              refine ⟨ms, cms, Q1', Hs, bgens.values, d, rfl, rfl, by rw [← hgv]; exact gc, bc, hd,
+                ?_⟩
+              rw [← gb]; simpa using he
+          · rintro ⟨ms', cms', Q1, Hs, Js, d, h1, h2, hc, hc', hd, he⟩
+            cases h1; cases h2
+            rw [gc] at hc
+            have hgv : gens.values = Q1 :: Hs := Res.ok.inj hc
+            rw [bc] at hc'
+            have hbv : bgens.values = Js := Res.ok.inj hc'
+            subst hbv
+            refine ⟨Q1, Hs ++ bgens.values, d, by rw [hgv]; rfl, ?_, hd, ?_⟩
+            · rw [hgv] at gl; simp at gl ⊢; omega
+            · rw [gb]; simpa using he
+
+/-- **Event**: a signature point/exponent pair is valid for two `B` values computed in two
+different hash domains (different suite, or plain vs blind interface). `B` and `B'` are
+`P1 + d•Q1 + Σ mᵢ•Hᵢ` over two generator families derived with different DSTs
+(`dst_separation`), from scalars hashed with different DSTs: a relation between independently
+derived generator sets. -/
+def CrossRelation (B B' : G1) : Prop := B = B'
+
+/-- **Cross-suite.** If one signature is accepted by `verify` under two suites `cs`, `cs'`
+(for any two statements), then the two `B` values — one computed entirely with the hash calls of
+`cs`, the other entirely with those of `cs'`, which by `dst_separation`/`xof_distinct` share no
+(hash function, DST) pair when `cs`, `cs'` are the two suites of the crate — coincide. -/
+theorem cross_suite (hl : Lawful env pair) (cs cs' : Suite G1) (sk : S) (σ : Signature S G1)
+    (msgs msgs' : Option (List Bytes)) (header header' : Option Bytes)
+    (hv : verify env cs σ (sk • env.bp2) msgs header = .ok ())
+    (hv' : verify env cs' σ (sk • env.bp2) msgs' header' = .ok ()) :
+    ∃ ms Q1 Hs d ms' Q1' Hs' d',
+      messagesToScalar env cs (msgs.getD []) cs.apiId = .ok ms ∧
+      createGenerators env cs ((msgs.getD []).length + 1) (some cs.apiId) = .ok (Q1 :: Hs) ∧
+      calculateDomain env cs (sk • env.bp2) Q1 Hs header (some cs.apiId) = .ok d ∧
+      messagesToScalar env cs' (msgs'.getD []) cs'.apiId = .ok ms' ∧
+      createGenerators env cs' ((msgs'.getD []).length + 1) (some cs'.apiId) = .ok (Q1' :: Hs') ∧
+      calculateDomain env cs' (sk • env.bp2) Q1' Hs' header' (some cs'.apiId) = .ok d' ∧
+      CrossRelation (calcB cs.p1 Q1 d Hs ms) (calcB cs'.p1 Q1' d' Hs' ms') := by
+  obtain ⟨ms, Q1, Hs, d, hm, hc, hd, he⟩ := (verify_iff' hl cs sk σ msgs header).mp hv
+  obtain ⟨ms', Q1', Hs', d', hm', hc', hd', he'⟩ := (verify_iff' hl cs' sk σ msgs' header').mp hv'
+  exact ⟨ms, Q1, Hs, d, ms', Q1', Hs', d', hm, hc, hd, hm', hc', hd', by
+    unfold CrossRelation; rw [← he, ← he']⟩
+
+/-- **Cross-interface.** If one signature is accepted both by the plain `verify` and by
+`verifyBlindSign` (same suite or not, any statements), then the plain `B` (hash calls with
+`api_id` DSTs only) equals the blind `B` (hash calls with `api_id_blind` and
+`"BLIND_" ++ api_id_blind` DSTs only). -/
+theorem cross_interface (hl : Lawful env pair) (cs cs' : Suite G1) (sk : S) (σ : Signature S G1)
+    (msgs msgs' committed : Option (List Bytes)) (header header' : Option Bytes)
+    (blind : Option S)
+    (hv : verify env cs σ (sk • env.bp2) msgs header = .ok ())
+    (hv' : verifyBlindSign env cs' σ (sk • env.bp2) header' msgs' committed blind = .ok ()) :
+    ∃ ms Q1 Hs d ms' cms Q1' Hs' Js d',
+      messagesToScalar env cs (msgs.getD []) cs.apiId = .ok ms ∧
+      createGenerators env cs ((msgs.getD []).length + 1) (some cs.apiId) = .ok (Q1 :: Hs) ∧
+      calculateDomain env cs (sk • env.bp2) Q1 Hs header (some cs.apiId) = .ok d ∧
+      messagesToScalar env cs' (msgs'.getD []) cs'.apiIdBlind = .ok ms' ∧
+      messagesToScalar env cs' (committed.getD []) cs'.apiIdBlind = .ok cms ∧
+      createGenerators env cs' ((msgs'.getD []).length + 1) (some cs'.apiIdBlind)
+        = .ok (Q1' :: Hs') ∧
+      createGenerators env cs' ((committed.getD []).length + 1)
+        (some (Bytes.ofAscii "BLIND_" ++ cs'.apiIdBlind)) = .ok Js ∧
+      calculateDomain env cs' (sk • env.bp2) Q1' (Hs' ++ Js) header' (some cs'.apiIdBlind)
+        = .ok d' ∧
+      CrossRelation (calcB cs.p1 Q1 d Hs ms)
+        (calcB cs'.p1 Q1' d' (Hs' ++ Js) (ms' ++ blind.getD 0 :: cms)) := by
+  obtain ⟨ms, Q1, Hs, d, hm, hc, hd, he⟩ := (verify_iff' hl cs sk σ msgs header).mp hv
+  obtain ⟨ms', cms, Q1', Hs', Js, d', hm', hcm, hc', hbc, hd', he'⟩ :=
+    (verifyBlindSign_iff hl cs' sk σ header' msgs' committed blind).mp hv'
+  exact ⟨ms, Q1, Hs, d, ms', cms, Q1', Hs', Js, d', hm, hc, hd, hm', hcm, hc', hbc, hd', by
+    unfold CrossRelation; rw [← he, ← he']⟩
+
+/-! ### The hypotheses are those of real executions -/
+
+/-- Everything above applies to every signature returned by `sign`: it is accepted, `A ≠ 0`,
+`sk + e ≠ 0`. Instance: every single-bit flip of a freshly made signature is rejected. -/
+theorem signed_bitflip_rejected (hl : Lawful env pair) (cs : Suite G1) (sk : S)
+    (msgs : Option (List Bytes)) (header : Option Bytes) (σ : Signature S G1)
+    (hs : sign env cs msgs sk (skToPk env sk) header = .ok σ)
+    (i : Nat) (hi : i < 80) (k : Nat) (hk : k < 8) (y : UInt8)
+    (hy : (σ.toBytes env)[i]? = some y) :
+    let b' := (σ.toBytes env).set i (y ^^^ ((1 : UInt8) <<< k.toUInt8))
+    Signature.fromBytes env b' = .err ∨
+    ∃ σ', Signature.fromBytes env b' = .ok σ' ∧
+      verify env cs σ' (skToPk env sk) msgs header ≠ .ok () := by
+  obtain ⟨hA, hz⟩ := C01.sign_A_ne_zero hl cs sk _ msgs header σ hs
+  exact sig_bitflip hl cs sk σ msgs header (C01.sign_verify hl cs sk msgs header σ hs) hA hz
+    i hi k hk y hy
 
 end Zk.C02
